@@ -61,6 +61,21 @@ def nansum_of_squares(
     )
 
 
+def _minmax(group_idx, array, engine, *, func, axis=-1, size=None, fill_value=None, dtype=None):
+    aggregate = _get_aggregate(engine).aggregate
+    result = aggregate(group_idx, array, axis=axis, func=func, size=size, fill_value=fill_value, dtype=dtype)
+    if engine == "numba" and array.dtype.kind in "fc":
+        # numpy_groupies' numba max / min skip NaN; NumPy's -- and every other engine's -- propagate it
+        hasnan = aggregate(group_idx, np.isnan(array), axis=axis, func="any", size=size, fill_value=False)
+        if hasnan.any():
+            result = np.where(hasnan, np.nan, result)
+    return result
+
+
+max = partial(_minmax, func="max")
+min = partial(_minmax, func="min")
+
+
 def nansum(group_idx, array, engine, *, axis=-1, size=None, fill_value=None, dtype=None):
     # npg takes out NaNs before calling np.bincount
     # This means that all NaN groups are equivalent to absent groups
